@@ -20,7 +20,7 @@ def budget(tier):
 
 @st.composite
 def _case(draw):
-    prof = S.profile(dep_only_file=0.2, p_own_empty=0.2, max_methods=6, max_services=2, p_http=0.3, p_sig=0.2, p_routing=0.05, p_paged=0.12, p_lro=0.12,
+    prof = S.profile(dep_only_file=0.2, services_in_subpackages=True, p_own_empty=0.2, max_methods=6, max_services=2, p_http=0.3, p_sig=0.2, p_routing=0.05, p_paged=0.12, p_lro=0.12,
                      p_stream=0.45, p_dep_io=0.25, p_comment=0.05, max_messages=4, max_fields=5, p_keyword_rpc=0.12,
                      p_resource=0.1, max_files=2)
     api = draw(S.apis(prof))
